@@ -278,11 +278,6 @@ def run(ctx):
     ok = P.record(UN)["size"] == 8 and u["blob"]["off_bits"] == 0 and u["state"]["off_bits"] == 0 and \
         sorted(W.f.values()) == [(0, 1), (1, 21), (22, 21), (43, 21)]
     o.check(ok, "layout ok", "unexpected layout %s" % sorted(W.f.items()), site=UN, construct="rwlock layout")
-    total = 0
-    for name, kind in (("fiber_rwlock_rdlock", "rdlock"), ("fiber_rwlock_wrlock", "wrlock"), ("fiber_rwlock_tryrdlock", "tryrdlock"),
-                       ("fiber_rwlock_trywrlock", "trywrlock"), ("fiber_rwlock_rdunlock", "rdunlock"), ("fiber_rwlock_wrunlock", "wrunlock")):
-        total += check_fn(ctx, P, W, name, kind)
-    ctx.derived["snapshots_interpreted"] = total
     o = ctx.ob("writers", "", "the state word is modified only by the CASes of these functions (and zeroed by init)", "")
     bad = None
     for fn in P.unique_functions():
@@ -295,4 +290,9 @@ def run(ctx):
                 if not ((fn.name == "fiber_rwlock_init" and kind == "assign") or (fn.name.startswith("fiber_rwlock_") and kind == "cas")):
                     bad = bad or ("`%s` in %s" % (s.node.text, fn.name), s.node)
     o.check(bad is None, "CAS-only", "unexpected writer " + (bad[0] if bad else ""), site=bad[1] if bad else None, construct="rwlock state writer")
+    total = 0
+    for name, kind in (("fiber_rwlock_rdlock", "rdlock"), ("fiber_rwlock_wrlock", "wrlock"), ("fiber_rwlock_tryrdlock", "tryrdlock"),
+                       ("fiber_rwlock_trywrlock", "trywrlock"), ("fiber_rwlock_rdunlock", "rdunlock"), ("fiber_rwlock_wrunlock", "wrunlock")):
+        total += check_fn(ctx, P, W, name, kind)
+    ctx.derived["snapshots_interpreted"] = total
     check_init(ctx, P, "fiber_rwlock_init", [("fiber_rwlock_state_t", "blob", 0)], calls=[("mpsc_fifo_init", 2)])
